@@ -6,6 +6,7 @@
 import E2P.Props.C05
 import E2P.Generated.GrammarRank
 import Mathlib.Tactic.Linarith
+import E2P.Lemmas.LexLemmas
 namespace E2P.C06
 open E2P E2P.C05
 
@@ -256,5 +257,41 @@ theorem parse_total (toks : List Tok) :
     | none => rw [hp] at h; simp at h
     | raise => rw [hp] at h; simp at h
     | depth => exact hnd hp
+
+/-! ### the regex lexer ends on every text -/
+
+/-- the lexer table of this run: `Lexer.TOKENS` in order, every class with its scanner (five hand-written, the others
+    interpreted from their regex source) -/
+def lexerTable : List (String × Lex.Scanner) := Lex.table E2P.Generated.lexerOrder E2P.Generated.lexerRegexes
+
+/-- checked on the regenerated table: every class outside the five hand-written scanners has a regex that is an alternation
+    of non-empty literals, and `UndefinedToken` is present -/
+theorem generated_lexer_table_ok : Lex.tableOk lexerTable = true := by decide +kernel
+
+/-- **`Lexer.parse` ends on every text**: it returns tokens or raises `Undefined token` / `The number is too large`;
+    every round of its `while` loop consumes at least one character. -/
+theorem lexer_ends (s : List Char) : (Lex.lex lexerTable s).ends := Lex.lex_ends lexerTable generated_lexer_table_ok s
+
+/-- **text → tree is total**: lexing, then parsing with the proved depth, ends in a tree covering all tokens, a rejection by the
+    parser, or one of the lexer's two exceptions -/
+theorem front_end_total (s : List Char) :
+    (∃ toks, Lex.lex lexerTable s = .ok toks ∧
+      ((∃ t, astBuild generated (toks.length * 6 + 6) "EntryPointToken" toks = .accept t ∧ t.leaves = toks) ∨
+        astBuild generated (toks.length * 6 + 6) "EntryPointToken" toks = .reject)) ∨
+    (∃ r, Lex.lex lexerTable s = .undefined r) ∨ Lex.lex lexerTable s = .tooLarge := by
+  have h := lexer_ends s
+  cases hl : Lex.lex lexerTable s with
+  | ok toks => exact Or.inl ⟨toks, rfl, parse_total toks⟩
+  | undefined r => exact Or.inr (Or.inl ⟨r, rfl⟩)
+  | tooLarge => exact Or.inr (Or.inr rfl)
+  | unsupported => rw [hl] at h; exact h.elim
+  | spin => rw [hl] at h; exact h.elim
+  | fuel => rw [hl] at h; exact h.elim
+
+/-- non-vacuity: a formula is lexed into its tokens -/
+example : Lex.lex lexerTable "=SUMIFS(A1:B2, 'x y'!$C$3 ,\">1\")%".toList =
+    .ok [("EqOperatorToken", "="), ("SumIfSKeywordToken", "SUMIFS"), ("BracketStartToken", "("), ("MatrixOfCellIdentifiersToken", "A1:B2"),
+         ("SeparatorToken", ","), ("CellIdentifierToken", "'x y'!$C$3"), ("SeparatorToken", ","), ("LiteralToken", "\">1\""),
+         ("BracketFinishToken", ")"), ("PercentToken", "%")] := by decide +kernel
 
 end E2P.C06
